@@ -199,7 +199,7 @@ for _uc, _nm in ((0, "malloc"), (1, "calloc")):
       config={"CONFIG_MAX_HEAPSIZE_IN_KBYTE": 20480})
 
 # ------------------------------------------------------------------------------------------------ protocol scenarios (cJSON model)
-_PROTO_UNITS = ["src/peer.c", "src/element.c", "src/fetch.c", "src/table.c", "src/response.c", "src/router.c", "src/timer.c",
+_PROTO_UNITS = ["src/peer.c", "model/wrap/element_abs.c", "src/fetch.c", "model/wrap/table_abs.c", "src/response.c", "model/wrap/router_abs.c", "src/timer.c",
                 "src/groups.c", "src/jet_string.c", "src/linux/jet_string.c", "src/parse.c", "src/config.c", "src/info.c",
                 "src/authenticate.c"]
 _SCN_STUBS = ["cJSON: bounded model (model/cjson_model.c): one heap object per node/string, case-insensitive GetObjectItem, no text rendering",
@@ -207,58 +207,31 @@ _SCN_STUBS = ["cJSON: bounded model (model/cjson_model.c): one heap object per n
               "transport: peer->send_message records the JSON tree being sent; symbolic failing peer / failing send index",
               "cjet_timer_init/destroy/start/cancel: timer model (created/armed/destroyed ghost state)",
               "log_err/log_peer_err/...: empty", "credentials_ok/change_password: not part of these scenarios (return NULL)"]
-_scn = dict(units=_PROTO_UNITS, model=["model/cjson_model.c", "model/alloc_stub.c"],
+_scn = dict(units=_PROTO_UNITS, model=["model/cjson_model.c", "model/alloc_stub.c"], include=["model/alloc_macros.h"],
             unit_defines={"src/peer.c": ["log_peer_err=real_log_peer_err", "log_peer_info=real_log_peer_info"]},
-            unwind=6, unwindset={"strlen.0": 74, "dupstr.0": 74, "ci_eq.0": 24, "strcmp.0": 24, "strncmp.0": 24, "strncpy.0": 74, "cpystr.0": 22},
+            unwind=6, unwindset={"find_closer_entry_route_table.0": 1, "find_closer_entry_route_table.1": 1,
+                                 "find_closer_entry_element_table.0": 1, "find_closer_entry_element_table.1": 1, "strlen.0": 74, "dupstr.0": 74, "ci_eq.0": 24, "strcmp.0": 24, "strncmp.0": 24, "strncpy.0": 74, "cpystr.0": 22},
             stubs=_SCN_STUBS, config={"CONFIG_ELEMENT_TABLE_ORDER": 2, "CONFIG_ROUTING_TABLE_ORDER": 2, "CONFIG_INITIAL_FETCH_TABLE_SIZE": 2},
             timeout={"quick": 900, "thorough": 3600})
 _scn_fetch = dict(_scn, harness="harness/scn_fetch.c",
-                  unit_defines=dict(_scn["unit_defines"], **{"src/table.c": ["element_table_put=real_element_table_put"]}))
+                  unit_defines=dict(_scn["unit_defines"], **{"model/wrap/table_abs.c": ["element_table_put=real_element_table_put"]}))
 O(id="C01.add_notify", props=["C01", "C11", "C02", "C04"], entry="harness_add_notify", reach=["add_all_healthy", "add_refused", "b_fails"],
   functions=["parse_message", "add_element_to_peer", "init_element", "find_fetchers_for_element", "add_fetch_to_state_and_notify",
              "notify_fetching_peer", "add_fetch_to_peer", "add_fetch_to_states", "create_*_response*"],
   symbolic="state value 0..999, which subscriber's send path fails (none/B/C), whether the path index refuses the insertion",
   assumes=["set-up steps (two fetch-all requests) succeed"], bounds="skeleton: B fetch-all; C fetch-all; A add 'a'; 3 peers, 1 element", **_scn_fetch)
-O(id="C01.change_remove", props=["C01", "C11", "C02", "C04"], entry="harness_change_remove", reach=["not_owner", "owner_healthy", "b_fails"],
-  functions=["parse_message", "change_state", "remove_element_from_peer", "remove_element", "notify_fetchers", "notify_fetching_peer"],
-  symbolic="new value, change vs remove, requester (owner A / other peer B), which subscriber's send path fails",
-  assumes=["set-up steps succeed"], bounds="skeleton: B fetch-all; C fetch-all; A add 'a'=5; then one change/remove; 3 peers, 1 element", **_scn_fetch)
-O(id="C01.fetch_order", props=["C01", "C02"], entry="harness_fetch_order", reach=["unfetched"],
-  functions=["parse_message", "add_fetch_to_peer", "add_fetch_to_states", "remove_fetch_from_peer", "remove_fetch_from_states", "change_state"],
-  symbolic="state value, whether unfetch happens before the change", assumes=["set-up steps succeed"],
-  bounds="skeleton: A add 'a'; B fetch; B fetch same id; [B unfetch]; A change; 2 peers, 1 element", **_scn_fetch)
-
-# ------------------------------------------------------------------------------------------------ websocket.c leaves (C12 C06 C10 C05)
-_ws = dict(harness="harness/ws_leaves.c", units=["src/compression.c", "src/utf8_checker.c", "src/linux/jet_endian.c"], unwind=8,
-           unwindset={"strlen.0": 24, "frame_rules.0": 8, "ws_writev.0": 16, "cjet_is_byte_sequence_valid.0": 8},
-           stubs=["buffered reader of the connection: read_exactly/read_until record (count, callback); writev records the frame (header bytes, payload pointer/length)",
-                  "free_connection: marks the connection released (any later read/write through it is a violation)",
-                  "application callbacks: record invocation, return a symbolic verdict", "http_parser_execute, SHA1*, log_*: inert",
-                  "zlib inflate/deflate: unreachable (compression level 0, as in the daemon)"])
-O(id="C12.frame_rules", props=["C12", "C06"], entry="harness_frame_rules",
-  reach=["rsv", "big_control", "ping", "close_ok", "stray_continuation", "continuation", "text", "first_fragment"],
-  functions=["ws_handle_frame", "handle_error", "websocket_close", "is_status_code_invalid", "send_frame", "text_received_comp", "text_frame_received_comp", "binary_received_comp", "binary_frame_received_comp"],
-  symbolic="FIN, RSV (0..7), opcode (0..15), fragmentation state (in progress, text/binary), payload length 0..6 or 126, payload bytes, application callback verdict",
-  assumes=["fragmentation state is consistent (is_fragmented <=> frag_opcode in {text,binary}): established by websocket_init and preserved (C12.fragmentation_* labels)"],
-  bounds="payload <= 6 bytes (exact-size heap object) or the abstract length 126 for the control-frame limit", **_ws)
-O(id="C06.ws_daemon_callbacks", props=["C06", "C12"], entry="harness_daemon_callbacks", reach=["daemon_fragment", "binary_unsupported", "text"],
-  functions=["ws_handle_frame (callback set of websocket_peer.c: text_message, close, pong)"],
-  symbolic="as C12.frame_rules", assumes=["as C12.frame_rules"], bounds="as C12.frame_rules", **_ws)
-O(id="C12.header_machine", props=["C12", "C09"], entry="harness_header_machine", reach=["len16", "len64", "masked_short"],
-  functions=["ws_get_header", "ws_get_first_length", "read_mask_or_payload", "ws_get_payload"], symbolic="both header bytes (all 65536)", assumes=[], bounds="none", **_ws)
-O(id="C12.ext_length", props=["C12", "C09"], entry="harness_ext_length", reach=["payload_requested"],
-  functions=["ws_get_length16", "ws_get_length64", "ws_get_mask"], symbolic="8 length bytes, 16/64-bit form, 4 mask bytes", assumes=[], bounds="none", **dict(_ws, unwind=10))
-O(id="C05.ws_header_eof", props=["C05", "C12"], entry="harness_header_eof",
-  functions=["ws_get_header", "ws_get_first_length", "ws_get_length16", "ws_get_length64", "ws_get_mask", "ws_get_payload"],
-  symbolic="the frame phase in which the peer's FIN arrives", assumes=[], bounds="none", **_ws)
-O(id="C12.payload_step", props=["C12"], entry="harness_payload_step", reach=["unmasked"],
-  functions=["ws_get_payload", "unmask_payload", "ws_handle_frame"], symbolic="mask bit, mask, 3 payload bytes", assumes=[], bounds="3-byte text frame", **_ws)
-for _off in range(8):
-    O(id="C12.unmask_off%d" % _off, props=["C12", "C06"], entry="harness_unmask", reach=["word_path"], defines=["AOFF=%d" % _off, "ULEN=24"],
-      functions=["unmask_payload"], symbolic="payload bytes, length 0..24, mask, observed index; exact-size heap object at alignment %d" % _off,
-      assumes=[], bounds="length <= 24 (up to three 64-bit words + pre/post bytes at every alignment); alignment enumerated over eight obligations",
-      **dict(_ws, unwind=6, unwindset={"unmask_payload.0": 9, "unmask_payload.1": 10, "unmask_payload.2": 9, "unmask_payload.3": 5, "unmask_payload.4": 9}))
-O(id="C12.send_frame", props=["C12", "C10"], entry="harness_send_frame", reach=["len16", "len64"],
-  functions=["send_frame"], symbolic="payload length 0..2^32-1, opcode in {text, binary, ping, pong}", assumes=[], bounds="payload abstract (pointer identity)", **dict(_ws, unwind=16))
-O(id="C12.close_frame", props=["C12"], entry="harness_close_frame", functions=["websocket_close", "websocket_send_close_frame"],
-  symbolic="status code 1000..4999", assumes=[], bounds="none", **dict(_ws, unwind=16))
+for _rm, _nm in ((0, "change"), (1, "remove")):
+    for _no, _who in ((0, "owner"), (1, "other")):
+        O(id="C01.%s_by_%s" % (_nm, _who), props=["C01", "C11", "C02", "C04"], entry="harness_change_remove",
+          reach=["not_owner"] if _no else ["owner_healthy", "b_fails"],
+          defines=(["DO_REMOVE=1"] if _rm else []) + (["NOT_OWNER=1"] if _no else []),
+          functions=["change_state" if not _rm else "remove_element_from_peer", "remove_element", "notify_fetchers", "notify_fetching_peer"],
+          symbolic="new value, which subscriber's send path fails (none/B/C)",
+          assumes=["set-up steps succeed"],
+          bounds="skeleton: B fetch-all; C fetch-all; A add 'a'=5; then one %s by %s; 3 peers, 1 element" % (_nm, "the owner A" if not _no else "another peer B"), **_scn_fetch)
+for _uf, _nm in ((0, "subscribed"), (1, "unfetched")):
+    O(id="C01.fetch_order_" + _nm, props=["C01", "C02"], entry="harness_fetch_order", reach=["unfetched"] if _uf else [],
+      defines=["DO_UNFETCH=1"] if _uf else [],
+      functions=["parse_message", "add_fetch_to_peer", "add_fetch_to_states", "remove_fetch_from_peer", "remove_fetch_from_states", "change_state"],
+      symbolic="state value", assumes=["set-up steps succeed"],
+      bounds="skeleton: A add 'a'; B fetch; B fetch same id; %sA change; 2 peers, 1 element" % ("B unfetch; " if _uf else ""), **_scn_fetch)
